@@ -6,6 +6,8 @@ CHECKS = {
  "C01": ("exploration", "round-trip monitor: source image as oracle, libwebp for attribution",
          "Runs Encode(lossless)->Decode on a stratified grid of image classes x Method x Quality x Exact x Go types x metadata and compares every pixel with the source; observes executions only, so it gives 'held on N round trips with these transform signatures', which is the right level for an all-inputs property of a codec.",
          "Trusts Go's color.NRGBAModel as the definition of the 8-bit non-premultiplied reading; libwebp 1.2.4 only for attribution.", "3/C01"),
+ "C19": ("exploration", "byte-equality monitor over storage placements", "Same pixels stored in 12+ ways must give byte-identical files; observes executions over image classes x options.", "Canonical reference = tight *image.NRGBA at origin; for non-NRGBA types the reference is the concrete type itself vs the same colours behind a wrapper.", "3/C19"),
+ "C07": ("exploration", "round-trip monitor on the alpha plane (source alpha as oracle; libwebp for attribution)", "Compares the decoded alpha plane with the source over alpha pattern x AlphaCompression x AlphaFiltering x AlphaQuality x Method grids; quantised case checked against the documented level formula.", "Level formula transcribed from the encoder documentation (2+q/5, 16+8(q-70)); monotone-map reading of \"only quantised\".", "3/C07"),
  "C02": ("exploration", "structural conformance monitor + differential decode (libwebp, x/image)",
          "Every emitted file is walked by an independent strict RIFF/VP8/VP8L/ALPH walker and decoded by three decoders whose outputs must agree; options drawn field-by-field from boundary sets with measured pairwise coverage.",
          "Trusts libwebp 1.2.4 and x/image (2019) as independent implementations and the walker's reading of the container spec.", "3/C02"),
